@@ -59,14 +59,18 @@ def plan(seed, subbatch):
         regimes = world.REGIMES_NORMAL + cfg.sample(world.REGIMES_DEGENERATE, 2)
         burst = {"p": 0.1, "min": 3, "max": 30}
     start = world.pick_start(cfg, base_s)
+    # a Hexital on a collapsing timeframe more often for the patterns (their averages run over merged buckets),
+    # then fed one candle per append half of the time so that the forming bucket is re-evaluated after every merge
+    tf_mode = sub_rng(seed, "tf-mode").random() < (0.65 if fn in PATTERNS else 0.3)
     pre, ops, fired, rows = planlib.stream_and_schedule(seed, subbatch, n, base_s, start, {}, burst, 0.0,
-                                                        regimes=regimes, regime_len=(2, 15))
+                                                        regimes=regimes, regime_len=(2, 15),
+                                                        style=("ones" if tf_mode and sub_rng(seed, "tf-ones").random() < 0.7 else None))
     if fn in PATTERNS and sub_rng(seed, "shapes").random() < 0.5:
         # pattern-shaped candles with proportions around the functions' thresholds (the rows are shared with the ops)
         every = list(pre) + [r for op in ops if op["op"] == "append" for r in op["candles"]]
         fired["pattern_shapes_injected"] += planlib.inject_shapes(sub_rng(seed, "shapes-at"), every)
     tf = None
-    if cfg.random() < 0.3:
+    if tf_mode:
         # the whole Hexital on a collapsing timeframe: the newest bucket is merged into between evaluations
         tf = world.pick_timeframe(cfg, base_s, 2.0, 4.0, allow_finer=False)
     return {"format": 1, "property": ID, "seed": seed, "subbatch": subbatch,
